@@ -1,6 +1,7 @@
 package main
 
 import (
+	"golang.org/x/tools/go/callgraph"
 	"fmt"
 	"go/ast"
 	"go/token"
@@ -53,6 +54,7 @@ type World struct {
 	boxed map[string]bool
 	privMapMemo map[ssa.Value]bool
 	stableFams map[string]*stableDecl
+	cg *callgraph.Graph
 }
 
 type contractErr struct{ file, msg, raw string }
